@@ -487,6 +487,7 @@ class Ctx:
         self.angles: list[Angle] = []
         self.roots: list[Val] = [Val(1)]  # candidate non-negative roots
         self.fresh_sqrts = []
+        self._alive = []
         self.fresh = 0
         self.memo = {}
         self.resolutions = []  # log
@@ -608,8 +609,8 @@ class Ctx:
         except Exception:
             return True
 
-    @staticmethod
-    def key(a: Val):
+    def key(self, a: Val):
+        self._alive.append(a)  # AST ids are only unique while the AST is referenced
         return (a.c, tuple(sorted((k, p) for k, (t, p) in a.nf.items())),
                 tuple(sorted((k, p) for k, (t, p) in a.df.items())))
 
@@ -655,7 +656,7 @@ class Ctx:
             res = Val.term(y)
             self.fresh_sqrts.append((a, res))
             self.axiom(y >= 0, (y * y) * a.den_term() == a.num_term())
-            V.SQRT_ATOMS[y.get_id()] = a
+            V.SQRT_ATOMS[y.get_id()] = (y, a)  # holding y keeps its id from being reused
             self.defs.append(("sqrt", V.ge(a, 0)))
             self.resolutions.append(("sqrt", "fresh"))
         self.memo[k] = res
@@ -880,6 +881,7 @@ class ValDomain:
         self.alternatives = []
         self.divs = []  # Vals that were divided by (for definedness queries)
         self.feas_timeout = 5000
+        self._decided = {}
 
     # ---- decisions --------------------------------------------------------------------
     def decide(self, f) -> bool:
@@ -892,10 +894,15 @@ class ValDomain:
             return True
         if z3.is_false(sf):
             return False
+        fid = sf.get_id()
+        if fid in self._decided and self._decided[fid][0].eq(sf):
+            # the same condition was met earlier on this path: no new decision (the stored AST keeps the id alive)
+            return self._decided[fid][1]
         k = len(self.decisions)
         if k < len(self.prefix):
             choice = self.prefix[k]
             self.decisions.append(choice)
+            self._decided[fid] = (sf, choice)
             self.ctx.path(f if choice else z3.Not(f))
             return choice
         rt = self.ctx.check(f, timeout_ms=self.feas_timeout)
@@ -912,6 +919,7 @@ class ValDomain:
         else:
             raise Infeasible()
         self.decisions.append(choice)
+        self._decided[fid] = (sf, choice)
         self.ctx.path(f if choice else z3.Not(f))
         return choice
 
